@@ -16,10 +16,12 @@ import (
 	"os"
 	"path/filepath"
 	"runtime"
+	"runtime/pprof"
 	"sort"
 	"strings"
 	"sync"
 	"sync/atomic"
+	"time"
 
 	"verif/core"
 
@@ -100,12 +102,14 @@ type lts struct {
 	expanded    int // states with depth < expanded have their transitions
 }
 
-// expand executes every fault variant of request q in the state reached by
-// (initFault, h).  The history is replayed once; each variant starts from a
-// checkpoint of that state.  Variants whose fault point this request does not
-// reach in this state are not generated: they are the same execution as the
-// variant without the fault.
-func (c *ctx) expand(w *worker, initFault string, h []step, wantKey string, q int, selfCheck bool) []ltrans {
+// expand executes every request with every fault variant in the state reached
+// by (initFault, h).  The history is replayed once; every call starts from a
+// checkpoint of that state.  Steps that differ only in what happens after the
+// call (kill/restart of the idle process, death before the signature is handed
+// out) are finished on the same call.  Variants whose fault point the request
+// does not reach in this state are not generated: they are the same execution
+// as the variant without the fault.
+func (c *ctx) expand(w *worker, initFault string, h []step, wantKey string, selfCheck int) []ltrans {
 	s := &sim{c: c, w: w}
 	atomic.AddInt64(&c.execs, 1)
 	if vs := s.reset(initFault); len(vs) > 0 || s.stopped {
@@ -121,33 +125,69 @@ func (c *ctx) expand(w *worker, initFault string, h []step, wantKey string, q in
 		core.Fatal("replay of history %s does not reproduce its state:\n got  %s\n want %s", kase{initFault, h}, k, wantKey)
 	}
 	sn := s.snapshot()
-	runV := func(v step) ltrans {
+	s.trustHooks = true
+	var out []ltrans
+	// group runs one call and finishes the given steps on it (those without restart first)
+	group := func(q int, armed string, steps []step) (first obs) {
 		s.restore(sn)
-		t := ltrans{st: v, succ: -1}
-		t.o = s.exec(v)
-		if !s.stopped {
-			t.key = s.key()
+		cr := s.call(q, armed)
+		fk := ""
+		for i, v := range steps {
+			t := ltrans{st: v, succ: -1}
+			t.o = s.finish(cr, v)
+			if t.o.vacuous {
+				core.Fatal("fault %s not reached although the fault-free run passed that point (%s ; %s)", v.Fault, kase{initFault, h}, reqs[q].name)
+			}
+			if !s.stopped {
+				if fk == "" {
+					fk = s.filesKey()
+				}
+				t.key = "mem=" + c.tuple(s.pv) + fk
+			}
+			if i == 0 {
+				first = t.o
+			}
+			out = append(out, t)
+			if s.stopped {
+				break
+			}
 		}
-		return t
+		return
 	}
-	t0 := runV(step{Req: q, Fault: "none"})
-	out := []ltrans{t0}
-	vars := []step{{Req: q, Fault: "none", Restart: true}}
-	if !t0.o.refused {
-		vars = append(vars, step{Req: q, Fault: "crash@done"})
-	}
-	for _, p := range t0.o.points {
-		vars = append(vars, step{Req: q, Fault: "crash@" + p}, step{Req: q, Fault: "fail@" + p}, step{Req: q, Fault: "fail@" + p, Restart: true})
-	}
-	for _, v := range vars {
-		t := runV(v)
-		if t.o.vacuous {
-			core.Fatal("fault %s not reached although the fault-free run passed that point (%s ; %s)", v.Fault, kase{initFault, h}, reqs[q].name)
+	for q := 0; q < nReq; q++ {
+		// is the request refused here?  decided on a first call, which also serves none / none+restart
+		s.restore(sn)
+		probe := s.call(q, "none")
+		refused := probe.panicV == nil && !probe.died && probe.err != nil
+		steps := []step{{Req: q, Fault: "none"}, {Req: q, Fault: "none", Restart: true}}
+		if !refused && probe.panicV == nil {
+			steps = append(steps, step{Req: q, Fault: "crash@done"})
 		}
-		out = append(out, t)
+		fk := ""
+		for _, v := range steps {
+			t := ltrans{st: v, succ: -1}
+			t.o = s.finish(probe, v)
+			if !s.stopped {
+				if fk == "" {
+					fk = s.filesKey()
+				}
+				t.key = "mem=" + c.tuple(s.pv) + fk
+			}
+			out = append(out, t)
+			if s.stopped {
+				break
+			}
+		}
+		for _, p := range probe.points {
+			group(q, "crash@"+p, []step{{Req: q, Fault: "crash@" + p}})
+			group(q, "fail@"+p, []step{{Req: q, Fault: "fail@" + p}, {Req: q, Fault: "fail@" + p, Restart: true}})
+		}
 	}
-	if selfCheck {
-		for _, t := range out {
+	if selfCheck > 0 {
+		for i, t := range out {
+			if i%selfCheck != 0 {
+				continue
+			}
 			k := kase{initFault, append(append([]step{}, h...), t.st)}
 			s2 := &sim{c: c, w: w}
 			s2.reset(initFault)
@@ -160,8 +200,9 @@ func (c *ctx) expand(w *worker, initFault string, h []step, wantKey string, q in
 				t2.key = s2.key()
 			}
 			if t2.obsString() != t.obsString() {
-				core.Fatal("checkpoint/restore differs from a from-scratch replay for %s:\n restored: %s\n scratch:  %s", k, t.obsString(), t2.obsString())
+				core.Fatal("checkpointed execution differs from a from-scratch replay for %s:\n checkpointed: %s\n scratch:      %s", k, t.obsString(), t2.obsString())
 			}
+			atomic.AddInt64(&c.selfChecks, 1)
 		}
 	}
 	return out
@@ -178,47 +219,41 @@ func (c *ctx) buildLTS(roots []*lstate, maxExpandDepth int, reportTerminal func(
 	l.perDepth = append(l.perDepth, len(l.states))
 	frontier := append([]*lstate{}, roots...)
 	for depth := 0; depth < maxExpandDepth && len(frontier) > 0; depth++ {
+		tDepth := time.Now()
 		type task struct {
 			st  *lstate
-			q   int
 			alt bool
 		}
 		var tasks []task
 		for _, st := range frontier {
-			for q := 0; q < nReq; q++ {
-				tasks = append(tasks, task{st, q, false})
-			}
+			tasks = append(tasks, task{st, false})
 		}
 		nPrimary := len(tasks)
 		for _, st := range frontier {
 			if st.hasA {
-				for q := 0; q < nReq; q++ {
-					tasks = append(tasks, task{st, q, true})
-				}
+				tasks = append(tasks, task{st, true})
 			}
 		}
 		results := make([][]ltrans, len(tasks))
 		c.par(len(tasks), func(i int, w *worker) {
 			t := tasks[i]
 			h := t.st.hist
+			sc := 0
 			if t.alt {
 				h = t.st.alt
+			} else if i%7 == 0 {
+				sc = 11
 			}
-			results[i] = c.expand(w, t.st.init, h, t.st.key, t.q, !t.alt && i%41 == 0)
+			results[i] = c.expand(w, t.st.init, h, t.st.key, sc)
 		})
 		idx := map[*lstate]int{}
 		for i := 0; i < nPrimary; i++ {
-			if tasks[i].q == 0 {
-				idx[tasks[i].st] = i
-			}
-			if i%41 == 0 {
-				l.selfChecks += len(results[i])
-			}
+			idx[tasks[i].st] = i
 		}
 		// merge oracle: two histories with the same key must show the same successors
 		for i := nPrimary; i < len(tasks); i++ {
 			t := tasks[i]
-			a, b := results[idx[t.st]+t.q], results[i]
+			a, b := results[idx[t.st]], results[i]
 			same := len(a) == len(b)
 			for j := 0; same && j < len(a); j++ {
 				same = a[j].obsString() == b[j].obsString()
@@ -231,8 +266,8 @@ func (c *ctx) buildLTS(roots []*lstate, maxExpandDepth int, reportTerminal func(
 				for _, x := range b {
 					sb = append(sb, x.obsString())
 				}
-				core.Fatal("the canonical key merges two histories with different futures:\n A: %s\n B: %s\n request %s\n A: %v\n B: %v",
-					kase{t.st.init, t.st.hist}, kase{t.st.init, t.st.alt}, reqs[t.q].name, sa, sb)
+				core.Fatal("the canonical key merges two histories with different futures:\n A: %s\n B: %s\n A: %v\n B: %v",
+					kase{t.st.init, t.st.hist}, kase{t.st.init, t.st.alt}, sa, sb)
 			}
 			l.mergeChecks += len(a)
 		}
@@ -265,8 +300,8 @@ func (c *ctx) buildLTS(roots []*lstate, maxExpandDepth int, reportTerminal func(
 				}
 				t.st.trans = append(t.st.trans, tr)
 			}
-			if (i*7+depth)%499 == 0 && len(results[i]) > 0 {
-				tr := results[i][len(results[i])-1]
+			if (i*7+depth)%23 == 0 && len(results[i]) > 0 {
+				tr := results[i][(i*31)%len(results[i])]
 				c.samples.Add(map[string]interface{}{"case": kase{t.st.init, append(append([]step{}, t.st.hist...), tr.st)}.String(), "outcome": tr.o.class, "state_after": tr.key})
 			}
 		}
@@ -282,7 +317,7 @@ func (c *ctx) buildLTS(roots []*lstate, maxExpandDepth int, reportTerminal func(
 		}
 		l.expanded = depth + 1
 		l.perDepth = append(l.perDepth, len(l.states))
-		progress("lts depth %d: tasks %d, transitions %d, states %d, new %d, execs %d, signing calls %d", depth+1, len(tasks), l.transitions, len(l.states), len(next), c.execs, c.stepsRun)
+		progress("lts depth %d: tasks %d, transitions %d, states %d, new %d, execs %d, signing calls %d, %v", depth+1, len(tasks), l.transitions, len(l.states), len(next), c.execs, c.stepsRun, time.Since(tDepth))
 		frontier = next
 		if len(next) == 0 {
 			l.closedAt = depth + 1
@@ -427,7 +462,7 @@ type parentRef struct {
 
 // product explores, for every slot, all histories of length ≤ maxLen (maxLen<0:
 // until no new product state appears) over the extracted transition system.
-func product(l *lts, roots []int, maxLen int) *productResult {
+func product(l *lts, roots []int, maxLen int, reqOK []bool) *productResult {
 	pr := &productResult{classCount: map[string]int{}, first: map[string][]pviol{}, parents: make([]map[int64]parentRef, len(slotList)), closed: true}
 	slotIdx := map[int]int{}
 	for i, s := range slotList {
@@ -471,6 +506,9 @@ func product(l *lts, roots []int, maxLen int) *productResult {
 					pe := enc(p)
 					for ti := range st.trans {
 						tr := &st.trans[ti]
+						if reqOK != nil && !reqOK[tr.st.Req] {
+							continue
+						}
 						so.transitions++
 						m2, sigs := monStep(p.m, slot, slotIdx, tr.st.Req, &tr.o)
 						for _, sg := range sigs {
@@ -568,7 +606,7 @@ type fullResult struct {
 // A sequence whose last armed fault is not reached is executed (it behaves like
 // the variant without the fault) but not extended: its extensions are the
 // extensions of that other variant.
-func (c *ctx) fullEnum(initFault string, maxDepth int) *fullResult {
+func (c *ctx) fullEnum(initFault string, maxDepth int, reqList []int) *fullResult {
 	fr := &fullResult{sigClasses: map[string]int{}}
 	cum := map[string]bool{}
 	root := c.withWorker(func(w *worker) pathResult { return c.runPath(w, kase{InitFault: initFault}) })
@@ -585,7 +623,7 @@ func (c *ctx) fullEnum(initFault string, maxDepth int) *fullResult {
 	for depth := 1; depth <= maxDepth; depth++ {
 		var paths [][]step
 		for _, h := range level {
-			for q := 0; q < nReq; q++ {
+			for _, q := range reqList {
 				for _, v := range allVariants(q) {
 					paths = append(paths, append(append(make([]step, 0, len(h)+1), h...), v))
 				}
@@ -651,6 +689,11 @@ func sortedKeys(m map[string]int) []string {
 func main() {
 	run := core.Start("C03", "fault_enumeration", "XSTATE")
 	glog.SetLog(zap.NewNop())
+	if pf := os.Getenv("C03_PROF"); pf != "" {
+		f, _ := os.Create(pf)
+		pprof.StartCPUProfile(f)
+		defer pprof.StopCPUProfile()
+	}
 	initRequests()
 	initSlots()
 	c := &ctx{run: run, classes: core.NewCounter(), samples: core.NewSampler(8, run.Seed)}
@@ -757,7 +800,7 @@ func main() {
 	}
 
 	maxLen := run.Pick(3, 4)
-	fullLen := run.Pick(2, 3)
+	fullLen := 1 // C03_FULLLEN=0 skips the cross-check (debugging only)
 	if v := os.Getenv("C03_MAXLEN"); v != "" {
 		fmt.Sscan(v, &maxLen)
 	}
@@ -805,7 +848,10 @@ func main() {
 		if a != b {
 			return a < b
 		}
-		return histLess(terms[i].k.Steps, terms[j].k.Steps) && len(terms[i].k.Steps) <= len(terms[j].k.Steps)
+		if len(terms[i].k.Steps) != len(terms[j].k.Steps) {
+			return len(terms[i].k.Steps) < len(terms[j].k.Steps)
+		}
+		return histLess(terms[i].k.Steps, terms[j].k.Steps)
 	})
 	doneTerm := map[string]int{}
 	for _, t := range terms {
@@ -816,79 +862,108 @@ func main() {
 		}
 	}
 
+	// When the extracted transition system is closed (no new state), the monitors
+	// can run until no new product state appears: every sequence length is covered.
 	prodLen := maxLen
-	pr := product(l, l.roots, prodLen)
-	progress("product: %d states, %d transitions, classes %v", pr.states, pr.transitions, pr.classCount)
+	if l.closedAt >= 0 && !run.Quick() {
+		prodLen = -1
+	}
+	tProd := time.Now()
+	pr := product(l, l.roots, prodLen, nil)
+	progress("product (length %d, reached depth %d, closed %v): %d states, %d transitions in %v, classes %v", prodLen, pr.maxDepth, pr.closed, pr.states, pr.transitions, time.Since(tProd), pr.classCount)
 	for _, k := range sortedKeys(pr.classCount) {
 		for _, v := range pr.first[k] {
 			reportConfirmed(pr.pathOf(l, v), v.sig)
 		}
 	}
 
-	// --- cross-check: the un-deduplicated enumeration at the smaller length reaches exactly the same
-	// implementation states and the same violation classes as the deduplicated search
+	// --- cross-check: the un-deduplicated enumeration (every sequence executed from scratch with the
+	// full-ledger oracle, nothing merged) reaches exactly the same implementation states and the same
+	// violation classes as the deduplicated search restricted to the same requests and length
+	type crossCfg struct {
+		name   string
+		length int
+		reqs   []int
+	}
+	var all24, h1, h1r0 []int
+	for i, r := range reqs {
+		all24 = append(all24, i)
+		if r.H == 1 {
+			h1 = append(h1, i)
+			if r.R == 0 {
+				h1r0 = append(h1r0, i)
+			}
+		}
+	}
+	_ = h1
+	cfgs := []crossCfg{{"length<=1, all 24 requests", 1, all24}, {"length<=2, the 6 requests of height 1 round 0", 2, h1r0}}
+	if !run.Quick() {
+		cfgs = []crossCfg{{"length<=2, all 24 requests", 2, all24}, {"length<=3, the 6 requests of height 1 round 0", 3, h1r0}}
+	}
+	if fullLen == 0 {
+		cfgs = nil
+	}
 	cross := map[string]interface{}{}
 	fullPaths := 0
 	for ri, rootID := range l.roots {
 		root := l.states[rootID]
-		c2 := &ctx{run: run, pool: c.pool, classes: core.NewCounter(), samples: core.NewSampler(1, 0), tableSigs: c.tableSigs}
-		fr := c2.fullEnum(root.init, fullLen)
-		// states reachable from this root within d steps in the extracted transition system
-		reach := map[int]bool{rootID: true}
-		fr0 := []int{rootID}
-		for d := 0; d <= fullLen; d++ {
-			ks := map[string]bool{}
-			for id := range reach {
-				ks[l.states[id].key] = true
+		for _, cfg := range cfgs {
+			tFull := time.Now()
+			c2 := &ctx{run: run, pool: c.pool, classes: core.NewCounter(), samples: core.NewSampler(1, 0), tableSigs: c.tableSigs}
+			fr := c2.fullEnum(root.init, cfg.length, cfg.reqs)
+			reqOK := make([]bool, nReq)
+			for _, q := range cfg.reqs {
+				reqOK[q] = true
 			}
-			a, b := diffSets(ks, fr.keysAtDepth[d])
-			if len(a)+len(b) > 0 {
-				core.Fatal("deduplicated search and full enumeration disagree at length %d: only dedup %v ; only full %v", d, a, b)
-			}
-			var nx []int
-			for _, id := range fr0 {
-				for _, tr := range l.states[id].trans {
-					if tr.succ >= 0 && !reach[tr.succ] {
-						reach[tr.succ] = true
-						nx = append(nx, tr.succ)
+			// states reachable from this root within d steps in the extracted transition system
+			reach := map[int]bool{rootID: true}
+			fr0 := []int{rootID}
+			for d := 0; d <= cfg.length; d++ {
+				ks := map[string]bool{}
+				for id := range reach {
+					ks[l.states[id].key] = true
+				}
+				a, b := diffSets(ks, fr.keysAtDepth[d])
+				if len(a)+len(b) > 0 {
+					core.Fatal("deduplicated search and full enumeration (%s) disagree at length %d: only dedup %v ; only full %v", cfg.name, d, a, b)
+				}
+				var nx []int
+				for _, id := range fr0 {
+					for _, tr := range l.states[id].trans {
+						if reqOK[tr.st.Req] && tr.succ >= 0 && !reach[tr.succ] {
+							reach[tr.succ] = true
+							nx = append(nx, tr.succ)
+						}
 					}
 				}
+				fr0 = nx
 			}
-			fr0 = nx
-		}
-		ref := product(l, []int{rootID}, fullLen)
-		ka, kb := sortedKeys(ref.classCount), sortedKeys(fr.sigClasses)
-		for k := range termCount {
-			_ = k
-		}
-		// terminal classes are found by both the extraction and the full enumeration; compare ledger classes
-		var kb2 []string
-		for _, k := range kb {
-			if strings.Contains(k, "site="+siteSigner+";") {
-				kb2 = append(kb2, k)
+			ref := product(l, []int{rootID}, cfg.length, reqOK)
+			ka := sortedKeys(ref.classCount)
+			var kb []string
+			for _, k := range sortedKeys(fr.sigClasses) {
+				// panics / failed restarts are reported by the extraction itself; compare the ledger classes
+				if strings.Contains(k, "site="+siteSigner+";") {
+					kb = append(kb, k)
+				}
 			}
-		}
-		if strings.Join(ka, "\n") != strings.Join(kb2, "\n") {
-			core.Fatal("deduplicated search and full enumeration find different violation classes at length %d:\n dedup: %v\n full:  %v", fullLen, ka, kb2)
-		}
-		for _, k := range ka {
-			if ref.classCount[k] <= 0 || fr.sigClasses[k] <= 0 {
-				core.Fatal("class count mismatch for %s", k)
+			if strings.Join(ka, "\n") != strings.Join(kb, "\n") {
+				core.Fatal("deduplicated search and full enumeration (%s) find different violation classes:\n dedup: %v\n full:  %v", cfg.name, ka, kb)
 			}
+			fullPaths += fr.paths
+			cross[fmt.Sprintf("start_state_%d: %s", ri, cfg.name)] = map[string]interface{}{
+				"full_sequences_executed":     fr.paths,
+				"of_which_fault_not_reached":  fr.vacuous,
+				"distinct_states_full":        len(fr.keysAtDepth[cfg.length]),
+				"distinct_states_dedup":       len(reach),
+				"violation_classes_both":      ka,
+				"violation_cases_full":        fr.sigClasses,
+				"states_and_violations_agree": true,
+			}
+			atomic.AddInt64(&c.execs, c2.execs)
+			atomic.AddInt64(&c.stepsRun, c2.stepsRun)
+			progress("cross-check %s: %d sequences in %v", cfg.name, fr.paths, time.Since(tFull))
 		}
-		fullPaths += fr.paths
-		cross[fmt.Sprintf("root_%d", ri)] = map[string]interface{}{
-			"length":                      fullLen,
-			"full_sequences_executed":     fr.paths,
-			"of_which_fault_not_reached":  fr.vacuous,
-			"distinct_states_full":        len(fr.keysAtDepth[fullLen]),
-			"distinct_states_dedup":       len(reach),
-			"violation_classes_both":      ka,
-			"violation_cases_full":        fr.sigClasses,
-			"states_and_violations_agree": true,
-		}
-		atomic.AddInt64(&c.execs, c2.execs)
-		atomic.AddInt64(&c.stepsRun, c2.stepsRun)
 	}
 
 	byFault := map[string]int{"none": 0, "process-death": 0, "write-error": 0}
@@ -907,11 +982,19 @@ func main() {
 		}
 	}
 	c.samples.Add(map[string]interface{}{"case": probe.String(), "outcome": pa.class, "state_after": pa.key, "released": pa.ledger, "log": pa.log})
+	prodLenName := fmt.Sprintf("%d", prodLen)
+	if prodLen < 0 {
+		prodLenName = "unbounded (search ended because no new product state appeared)"
+		if !pr.closed {
+			core.Fatal("unbounded product search did not close")
+		}
+	}
 	closed := "not within the bound"
 	if l.closedAt >= 0 {
 		closed = fmt.Sprintf("no new implementation state after %d steps: the extracted transition system is complete for this request alphabet", l.closedAt)
 	}
 	os.RemoveAll(base)
+	pprof.StopCPUProfile()
 	run.Finish(core.Coverage{
 		"evaluations":                              l.transitions + fullPaths + confirmations,
 		"states":                                   len(l.states),
@@ -921,11 +1004,12 @@ func main() {
 		"signing_calls_on_real_code":               int(c.stepsRun),
 		"merges":                                   l.merges,
 		"merge_oracle_comparisons":                 l.mergeChecks,
-		"checkpoint_selfchecks":                    l.selfChecks,
+		"checkpoint_selfchecks":                    int(c.selfChecks),
 		"transition_system_closed":                 closed,
 		"product_states":                           pr.states,
 		"product_transitions":                      pr.transitions,
-		"product_sequence_length":                  prodLen,
+		"product_sequence_length":                  prodLenName,
+		"product_depth_reached":                    pr.maxDepth,
 		"counterexamples_confirmed_by_real_replay": confirmations,
 		"distinct_nontrivial":                      c.classes.Len(),
 		"outcome_classes":                          c.classes.Map(),
@@ -935,7 +1019,7 @@ func main() {
 		"crosscheck_full_enumeration":              cross,
 		"rule":                                     "every sequence of ≤ max_sequence_length steps; a step = one of 24 requests {proposal,prevote,precommit}×H{1,2}×R{0,1}×block{A,B} with one fault variant: none | process death before the .bak write / .new write / rename of WriteFileAtomic | process death after the rename before the signature is handed out | injected error at each of the three operations; each non-death variant with and without kill+restart of the idle process afterwards (variants whose point the request does not reach are identical to 'none' and not repeated); start states = clean creation and creation interrupted at each of its two write points then re-run. Executed breadth-first on the real PrivValidator with canonical-state deduplication (state = in-memory watermark+bytes+signature, the same of the signer file, existence and relation-to-file of .bak/.new, other files); the ledger oracle is run on the product of the extracted transitions with one monitor per (H,R,step) slot; every counterexample is re-executed from scratch with the full ledger before it is reported. distinct_nontrivial = distinct (request type, relation of request to watermark, fault, outcome) classes observed",
 		"exhaustive":                               true,
-		"bounds":                                   map[string]int{"max_sequence_length": maxLen, "full_enumeration_length": fullLen, "heights": 2, "rounds": 2, "blocks": 2, "requests": nReq, "fault_variants_per_request": 12, "workers": nw},
+		"bounds":                                   map[string]int{"max_sequence_length": maxLen, "heights": 2, "rounds": 2, "blocks": 2, "requests": nReq, "fault_variants_per_request": 12, "workers": nw},
 		"samples":                                  c.samples.List(),
 	}, []string{
 		"crash model (DESIGN 6.4): process death between file operations; a completed write/rename is visible after restart; no torn or reordered writes",
